@@ -86,6 +86,8 @@ def generate(rng, tier):
         if rng.random() < 0.5:
             cases.append(dict(kind="complex", field=f, ax=rng.randrange(nd),
                               axes=(rng.sample(range(nd), rng.randint(2, nd)) if nd >= 2 else None)))
+    for _ in range(60 if tier == "quick" else 500):
+        cases.append(gen_extreme(rng))
     # larger arrays: strategies that switch with size (block-wise summation, chunked loops); values stay dyadic,
     # so every sum is exact
     # (the Coq model indexes lists, so a shard costs O(cells^2): sizes are kept to a few hundred cells)
@@ -110,7 +112,103 @@ def exact(arr):
     return [F(float(x)) for x in np.asarray(arr, dtype=float).reshape(-1).tolist()]
 
 
+def gen_extreme(rng):
+    """oracle-only cases (no Coq term): non-finite and huge cell values; strongly anisotropic decimal meshes"""
+    what = rng.choice(["nonfinite", "nonfinite", "huge", "strip", "strip"])
+    if what == "strip":
+        # a thin, long strip: edge ratios 1e4 .. 1e6, decimal (non-dyadic) cell sizes, one cell along an axis
+        edges = [rng.choice([50e-6, 1e-5, 3e-3]), rng.choice([60e-9, 5e-9, 2e-8]), rng.choice([0.3e-9, 1e-9, 2e-9])]
+        n = [rng.choice([70, 35, 13, 100]), rng.choice([6, 3, 7]), rng.choice([1, 1, 2])]
+        perm = rng.sample(range(3), 3)
+        return dict(kind="extreme", what=what, edges=[edges[i] for i in perm], n=[n[i] for i in perm],
+                    p1=[rng.choice([0.0, 1e-7, -2e-6]) for _ in range(3)], nvdim=rng.choice([1, 3]),
+                    order=rng.sample(range(3), 3), seed=rng.randrange(10 ** 6))
+    nd = rng.choice([1, 2, 3])
+    sh = [rng.randint(1, 5) for _ in range(nd)]
+    return dict(kind="extreme", what=what, sh=sh, nvdim=rng.choice([1, 2]), ax=rng.randrange(nd),
+                seed=rng.randrange(10 ** 6), k=rng.randint(1, 3))
+
+
+def run_extreme(c):
+    rec = dict(kind="extreme", case=c, oracle=[], tags=[], coq=None)
+    r_ = np.random.RandomState(c["seed"])
+
+    def same(a, b, tol=0.0):
+        a, b = np.asarray(a, dtype=float), np.asarray(b, dtype=float)
+        if a.shape != b.shape:
+            return False
+        fin = np.isfinite(a) & np.isfinite(b)
+        if not np.array_equal(np.isnan(a), np.isnan(b)) or not np.array_equal(a[~fin & ~np.isnan(a)], b[~fin & ~np.isnan(b)]):
+            return False
+        return bool(np.all(np.abs(a[fin] - b[fin]) <= tol * max(1.0, float(np.max(np.abs(b[fin]), initial=0.0)))))
+    with np.errstate(all="ignore"):
+        if c["what"] == "strip":
+            p1 = c["p1"]
+            p2 = [a + e for a, e in zip(p1, c["edges"])]
+            st, mesh = attempt(lambda: df.Mesh(p1=p1, p2=p2, n=c["n"]))
+            if st != "ok":
+                rec.update(obs=dict(err=mesh), key="extreme/strip/mesh-refused", size=3)
+                return rec          # the constructor's own business (C01), nothing to integrate
+            arr = r_.randint(-8, 9, size=(*c["n"], c["nvdim"])).astype(float)
+            f = df.Field(mesh, nvdim=c["nvdim"], value=arr)
+            dims = mesh.region.dims
+            for a in range(3):
+                st, r = attempt(lambda: f.integrate(dims[a]))
+                stm, rm = attempt(lambda: f.mean(dims[a]))
+                if st != "ok" or stm != "ok":
+                    rec["oracle"].append("directional-call-raised")
+                    continue
+                if not same(r.array, arr.sum(axis=a) * mesh.cell[a], 1e-12):
+                    rec["oracle"].append("directional-integral")
+                if not same(rm.array, arr.mean(axis=a), 1e-12):
+                    rec["oracle"].append("directional-mean")
+            # direction by direction in the drawn order equals the integral over all directions
+            cur, st = f, "ok"
+            for a in c["order"]:
+                st, cur = attempt(lambda: cur.integrate(dims[a]))
+                if st != "ok":
+                    rec["oracle"].append("directional-call-raised")
+                    break
+            if st == "ok" and not same(np.asarray(cur).reshape(-1), np.asarray(f.integrate()).reshape(-1), 1e-11):
+                rec["oracle"].append("fubini")
+            rec.update(obs=dict(n=c["n"]), key=f'extreme/strip/{tuple(c["n"])}', size=3, nontrivial=True)
+            rec["oracle"] = sorted(set(rec["oracle"]))
+            return rec
+        sh, nvdim, ax = c["sh"], c["nvdim"], c["ax"]
+        mesh = df.Mesh(p1=[0.0] * len(sh), p2=[float(2 * k) for k in sh], n=sh)      # cell 2 along every axis
+        arr = r_.randint(-8, 9, size=(*sh, nvdim)).astype(float)
+        flat = arr.reshape(-1)
+        special = [np.nan, np.inf, -np.inf] if c["what"] == "nonfinite" else [1.5e308, -1.2e308, 8e307]
+        for i in r_.choice(flat.size, size=min(c["k"], flat.size), replace=False):
+            flat[i] = special[int(r_.randint(len(special)))]
+        f = df.Field(mesh, nvdim=nvdim, value=arr)
+        dims = mesh.region.dims
+        h = float(mesh.cell[ax])
+        dV = float(np.prod(mesh.cell))
+        # the documented formulas evaluated in numpy on the stored values, non-finite values propagating
+        if not same(np.asarray(f.integrate()).reshape(-1), arr.reshape(-1, nvdim).sum(axis=0) * dV, 1e-12):
+            rec["oracle"].append("total-integral")
+        r = f.integrate(dims[ax])
+        if not same(np.asarray(r if isinstance(r, np.ndarray) else r.array).reshape(-1),
+                    (arr.sum(axis=ax) * h).reshape(-1), 1e-12):
+            rec["oracle"].append("directional-integral")
+        cum = f.integrate(dims[ax], cumulative=True).array
+        a_ = np.moveaxis(arr, ax, 0)
+        want = np.empty_like(a_)
+        run = np.zeros_like(a_[0])
+        for j in range(a_.shape[0]):
+            want[j] = (run + a_[j] / 2) * h          # preceding cells + half the own value
+            run = run + a_[j]
+        if not same(np.moveaxis(cum, ax, 0), want, 1e-12):
+            rec["oracle"].append("cumulative-formula")
+        rec.update(obs=dict(sh=sh), key=f'extreme/{c["what"]}/{tuple(sh)}/{ax}', size=len(sh), nontrivial=True)
+    rec["oracle"] = sorted(set(rec["oracle"]))
+    return rec
+
+
 def run_case(c):
+    if c["kind"] == "extreme":
+        return run_extreme(c)
     fc = c["field"]
     kind = c["kind"]
     rec = dict(kind=kind, case=c, oracle=[], tags=[], coq=None)
